@@ -42,6 +42,9 @@ def case_from_json(j):
     return cc.td_from_json(j["td"]), cc.val_from_canon(j["v"]), bytes.fromhex(j.get("rest", ""))
 
 
+HANG_CLASS = "Array(length-type):zero-size-element-count-loop"
+
+
 def _fail(R, what, cj, observed, expected, cls):
     """at most 3 recorded failures per class, so that the many instances of a known deviation can
     never crowd a new failure out of the framework's list"""
@@ -59,6 +62,10 @@ def check_roundtrip(R, cases, outs):
         exp = cc.canon_unordered(cc.canon(cc.py_norm(x, v)))
         devs = cc.py_devs(x, v, rest)
         cls = devs[0] if devs else "in-domain:" + cc.ty_kind(td)
+        if o[0] == "hang" and cc.x_hang_prone(x):
+            # a count read from the data over an element type that can occupy no bytes: its own class,
+            # so that any OTHER failure on such a type is still reported under the class it belongs to
+            cls = HANG_CLASS
         R.count("oracle_class", "in-domain" if not devs else cls)
         cj = case_json(td, v, rest)
         if o[0] == "rt":
@@ -114,7 +121,8 @@ def check_prefixed(R, cases, outs):
         elif o[0] == "rt":
             _fail(R, "decode(count + encode(v)) != v or wrong consumption", cj, [list(o[1])[:3], o[2], o[3]], [list(exp)[:3]], cls)
         else:
-            _fail(R, "decode(count + encode(v)) raised", cj, cc.CODE_NAMES.get(o[1], o[1]) if len(o) > 1 else o[0], "the values", cls)
+            _fail(R, "decode(count + encode(v)) raised", cj, cc.CODE_NAMES.get(o[1], o[1]) if len(o) > 1 else o[0], "the values",
+                  HANG_CLASS if o[0] == "hang" and cc.x_hang_prone(x) else cls)
 
 
 def domain_check(R, mp, pairs):
@@ -262,8 +270,10 @@ def run_cases(R, mp, triples, thorough, light=False):
     for td, v, kind in triples:
         if td[0] == "arrp":
             x = cc.expand(td)
-            if (cc.py_doc_dom(x, v) and cc.py_devs(x, v, b"") == ["Array(length-type)"] and x[3][0] != "bits"
-                    and cc.x_consumes(x[3])):
+            # the hypotheses of C06_length_prefixed: the ELEMENT type is inside wf_ty (in particular it
+            # contains no further length-prefixed array) and the values are in its domain
+            if (cc.py_doc_dom(x, v) and x[3][0] != "bits" and not cc.x_type_devs(x[3])
+                    and not any(cc.py_devs(x[3], e, b"") for e in v) and len(v) <= 1 << 20):
                 pre.append((td, v, bytes(rng.randrange(256) for _ in range(rng.choice([0, 1, 4])))))
     if pre:
         outs = cc.run_impl([("pre", td, v, rest) for td, v, rest in pre], fn=oracle_prefixed)
